@@ -391,10 +391,6 @@ Proof.
 Qed.
 
 (* ---------- finite part: every type / element type, evaluated on the regenerated tables ---------- *)
-Definition excluded (t : N) : bool := ((t =? ty_STRUCT) || (t =? ty_JSONB) || (t =? ty_MISSING_TYPE))%N.
-
-Definition all_types : list N := map fst c11_type_names.
-
 Definition plain_types : list N :=
   filter (fun t => negb (excluded t || (t =? ty_ARRAY) || (t =? ty_DECIMAL))%N) all_types.
 
@@ -505,7 +501,7 @@ Lemma type_round_trip_plain t nm nl :
   exists f, arrow_field (mkCol nm t None None None nl) = Ok f /\ fname f = nm /\
             from_arrow_field false f = Ok (mkCol nm t None None None (fnullable f)).
 Proof.
-  intros Hin H1 H2 H3 Ha Hd. apply trip_column.
+  intros Hin H1 H2 H3 Ha Hd. apply trip_column. fold all_types in Hin.
   apply plain_trip; [exact Hin|apply excluded_false; assumption|exact Ha|exact Hd].
 Qed.
 
@@ -522,6 +518,64 @@ Lemma type_round_trip_decimal p s nm nl :
   exists f, arrow_field (mkCol nm ty_DECIMAL None (Some p) (Some s) nl) = Ok f /\ fname f = nm /\
             from_arrow_field false f = Ok (mkCol nm ty_DECIMAL None (Some p) (Some s) (fnullable f)).
 Proof. intros Hp Hs. apply trip_column. apply decimal_trip; assumption. Qed.
+
+(* all three in one statement, with the guard the correspondence evaluates on every observed column *)
+Lemma excluded_neq t : excluded t = false -> t <> ty_STRUCT /\ t <> ty_JSONB /\ t <> ty_MISSING_TYPE.
+Proof.
+  unfold excluded. intros H. apply orb_false_elim in H as [H H3]. apply orb_false_elim in H as [H1 H2].
+  apply N.eqb_neq in H1. apply N.eqb_neq in H2. apply N.eqb_neq in H3. repeat split; assumption.
+Qed.
+
+Lemma existsb_eqb_In t l : existsb (N.eqb t) l = true -> In t l.
+Proof.
+  intros H. apply existsb_exists in H as [x [Hin Hx]]. apply N.eqb_eq in Hx. subst. exact Hin.
+Qed.
+
+Lemma type_round_trip (c : column) :
+  roundtrippable c = true ->
+  exists f, arrow_field c = Ok f /\ fname f = cname c /\
+            from_arrow_field false f = Ok (mkCol (cname c) (ctype c) (celem c) (cprec c) (cscale c) (fnullable f)).
+Proof.
+  destruct c as [nm t e p s nl]. unfold roundtrippable. cbn [cname ctype celem cprec cscale].
+  intros H. apply andb_prop in H as [H Hk]. apply andb_prop in H as [Hin Hex].
+  apply existsb_eqb_In in Hin. apply negb_true_iff in Hex.
+  destruct (excluded_neq t Hex) as [N1 [N2 N3]].
+  destruct (t =? ty_ARRAY)%N eqn:Ea.
+  - apply N.eqb_eq in Ea. subst t.
+    apply andb_prop in Hk as [Hk Hs]. apply andb_prop in Hk as [Hk Hp].
+    destruct e as [e|]; [|discriminate Hk]. destruct p; [discriminate Hp|]. destruct s; [discriminate Hs|].
+    apply andb_prop in Hk as [He Hxe]. apply existsb_eqb_In in He. apply negb_true_iff in Hxe.
+    destruct (excluded_neq e Hxe) as [M1 [M2 M3]].
+    apply type_round_trip_array; assumption.
+  - apply N.eqb_neq in Ea. destruct (t =? ty_DECIMAL)%N eqn:Ed.
+    + apply N.eqb_eq in Ed. subst t. apply andb_prop in Hk as [He Hk].
+      destruct e; [discriminate He|]. destruct p as [p|]; [|discriminate Hk]. destruct s as [s|]; [|discriminate Hk].
+      apply type_round_trip_decimal; lia.
+    + apply N.eqb_neq in Ed. apply andb_prop in Hk as [Hk Hs]. apply andb_prop in Hk as [He Hp].
+      destruct e; [discriminate He|]. destruct p; [discriminate Hp|]. destruct s; [discriminate Hs|].
+      apply type_round_trip_plain; assumption.
+Qed.
+
+(* hence the run-time check of the typing clause can only fail where the implementation leaves the model *)
+Lemma came_back_named_model nm (c : column) :
+  came_back_named nm c (arrow_field_named nm c) (bind (arrow_field_named nm c) (from_arrow_field false)) = true.
+Proof.
+  unfold came_back_named. destruct (roundtrippable c) eqn:R; [|reflexivity].
+  assert (R' : roundtrippable (mkCol nm (ctype c) (celem c) (cprec c) (cscale c) (cnullable c)) = true) by exact R.
+  destruct (type_round_trip _ R') as [f [H1 [H2 H3]]].
+  change (arrow_field (mkCol nm (ctype c) (celem c) (cprec c) (cscale c) (cnullable c))) with (arrow_field_named nm c) in H1.
+  cbn [cname ctype celem cprec cscale] in H2, H3.
+  rewrite H1. cbn [bind]. rewrite H3, H2.
+  assert (L : forall l, listN_eqb l l = true) by (induction l as [|x l IH]; cbn; [reflexivity|rewrite N.eqb_refl, IH; reflexivity]).
+  assert (ON : forall o, optN_eqb o o = true) by (intros [x|]; cbn; [apply N.eqb_refl|reflexivity]).
+  assert (OZ : forall o, optZ_eqb o o = true) by (intros [x|]; cbn; [apply Z.eqb_refl|reflexivity]).
+  unfold column_eqb. cbn [cname ctype celem cprec cscale cnullable].
+  rewrite !L, N.eqb_refl, ON, !OZ, eqb_reflx. reflexivity.
+Qed.
+
+Lemma came_back_model (c : column) :
+  came_back c (arrow_field c) (bind (arrow_field c) (from_arrow_field false)) = true.
+Proof. apply came_back_named_model. Qed.
 
 (* STRUCT / JSONB travel as binary, the untyped placeholder as string - as types and as element types *)
 Lemma binary_carried nm nl :
